@@ -136,6 +136,15 @@ def run_integral(mods, ref, field, limit, use_volfrac, via, ctx, canary=False, p
                 ref.write_symfs(fs, '/work/plt')
                 pck = PlotfileCooker('plt', limit_level=limit, ghost=True)
                 got = pestle.volume_integral(pck, field, use_volfrac=use_volfrac)
+            elif via == 'again':
+                # one retained reader object: the full integral twice (and once with the other volfrac setting); the last one is judged
+                pck = PlotfileCooker('plt', ghost=True)
+                for uv in (use_volfrac, not use_volfrac):
+                    try:
+                        pestle.volume_integral(pck, field, use_volfrac=uv)
+                    except Exception:
+                        pass
+                got = pestle.volume_integral(pck, field, limit_level=limit, use_volfrac=use_volfrac)
             elif via == 'history':
                 # one retained reader object: an integral restricted to level 0 first, then the judged one
                 pck = PlotfileCooker('plt', ghost=True)
@@ -196,10 +205,10 @@ def run_case(case):
             runs.append((field, None, 'volFrac' in ref.fields, 'same-path'))
         for limit in [None] + list(range(ref.nlev)):
             for vf in ((False, True) if 'volFrac' in ref.fields else (False,)):
-                for via in ('reader', 'argument', 'cli', 'history'):
+                for via in ('reader', 'argument', 'cli', 'history', 'again'):
                     if limit is None and via == 'argument':
                         continue
-                    if via == 'history' and (ref.nlev < 2 or limit == 0):
+                    if via in ('history', 'again') and (ref.nlev < 2 or limit == 0):
                         continue
                     runs.append((field, limit, vf, via))
     # hosts with other CPU counts: counts that do not divide the number of boxes of some level (work split per CPU must lose no box)
@@ -280,6 +289,12 @@ def make_replay(ref, v):
                "    shutil.rmtree(work)\n    shutil.copytree(os.path.join(IN, 'plt'), work)\n"
                "    RESULT = volume_integral(PlotfileCooker(work, limit_level=%r, ghost=True), %r, use_volfrac=%r)\n" % (field, vf, limit, field, vf))
         return replay_lib.make_tool_replay('C09', v['signature'], v['what'], {'plt': (fs, '/work/plt'), 'plt_prior': (fs2, '/work/plt')}, run, {'kind': 'value', 'close': expv}, val=val)
+    elif via == 'again':
+        run = ("from amr_kitchen import PlotfileCooker\nfrom amr_kitchen.pestle.pestle import volume_integral\nimport contextlib, io\n"
+               "with contextlib.redirect_stdout(io.StringIO()), contextlib.redirect_stderr(io.StringIO()):\n"
+               "    pck = PlotfileCooker(os.path.join(IN, 'plt'), ghost=True)\n"
+               "    for uv in (%r, %r):\n        try:\n            volume_integral(pck, %r, use_volfrac=uv)\n        except Exception:\n            pass\n"
+               "    RESULT = volume_integral(pck, %r, limit_level=%r, use_volfrac=%r)\n" % (vf, not vf, field, field, limit, vf))
     elif via == 'history':
         run = ("from amr_kitchen import PlotfileCooker\nfrom amr_kitchen.pestle.pestle import volume_integral\nimport contextlib, io\n"
                "with contextlib.redirect_stdout(io.StringIO()), contextlib.redirect_stderr(io.StringIO()):\n"
